@@ -24,7 +24,22 @@ def _libs():
     from proof_generation.proofs.propositional import Propositional
     from proof_generation.tautology import Tautology
     from proof_generation.proofs.substitution import Substitution
-    return {'Propositional': Propositional, 'Tautology': Tautology, 'Substitution': Substitution}
+    from proof_generation.proofs.kore import KoreLemmas
+    return {'Propositional': Propositional, 'Tautology': Tautology, 'Substitution': Substitution, 'Kore': KoreLemmas}
+
+
+def kore_atom(rng, sort, args):
+    """One application of a shipped Kore notation (several have arguments their definition does not use, and positional
+    format strings) to the given sub-terms, as an extended term."""
+    import proof_generation.proofs.kore as kl
+    S, S2 = B.to_py(sort), B.to_py(T.sym(1))
+    a = [B.to_py(x) for x in args]
+    fam = [lambda: kl.kore_and(S, a[0], a[1]), lambda: kl.kore_or(S, a[0], a[1]), lambda: kl.kore_not(S, a[0]), lambda: kl.kore_next(S, a[0]),
+           lambda: kl.kore_implies(S, a[0], a[1]), lambda: kl.kore_rewrites(S, a[0], a[1]), lambda: kl.kore_top(S), lambda: kl.kore_bottom(S),
+           lambda: kl.kore_dv(S, a[0]), lambda: kl.kore_kseq(a[0], a[1]), lambda: kl.kore_equals(S, S2, a[0], a[1]), lambda: kl.kore_iff(S, a[0], a[1]),
+           lambda: kl.kore_ceil(S, S2, a[0]), lambda: kl.kore_floor(S, S2, a[0]), lambda: kl.kore_in(S, S2, a[0], a[1]),
+           lambda: kl.kore_and(a[2], a[0], a[1]), lambda: kl.kore_next(a[1], a[0])]
+    return B.from_py(rng.choice(fam)())
 
 
 SKIP = {'main', 'serialize', 'import_module', 'execute_full', 'execute_gamma_phase', 'execute_claims_phase',
@@ -198,11 +213,19 @@ def compose(seed, adversarial=False):
     k = Knobs(rng)
     k.p_illformed = 0.0
     p_not = rng.choice([0.2, 0.4, 0.6])
-    lib_name = rng.choice(['Propositional', 'Propositional', 'Propositional', 'Tautology', 'Tautology', 'Substitution', 'none'])
+    lib_name = rng.choice(['Propositional', 'Propositional', 'Propositional', 'Tautology', 'Tautology', 'Substitution', 'none', 'Kore'])
     pool_terms = []
 
     def pat(depth=None):
-        return gen_ext(rng, k, depth if depth is not None else rng.randint(0, 2), p_not, pool_terms if rng.random() < 0.6 else None)
+        t = gen_ext(rng, k, depth if depth is not None else rng.randint(0, 2), p_not, pool_terms if rng.random() < 0.6 else None)
+        if lib_name == 'Kore' and rng.random() < 0.45:
+            try:
+                kt = kore_atom(rng, T.sym(0), [t] + [gen_ext(rng, k, rng.randint(0, 1), p_not, None) for _ in range(2)])
+                if _safe(kt) and T.wf_deep(B.expand(kt)):
+                    return kt
+            except T.Abort:
+                pass
+        return t
 
     atoms = [pat(rng.randint(0, 2)) for _ in range(3)]
     P, Q, R_ = atoms
